@@ -710,6 +710,8 @@ def snapshot(x, cold=False):
             put("coeffs", lambda: [repr(a) for a in x.coefficients()])
     elif isinstance(x, dict):
         put("items", lambda: [(repr(k), repr(v)) for k, v in x.items()])
+    elif type(x).__name__ == "Measure":
+        put("items", lambda: repr(x))
     elif isinstance(x, (set, list)):
         put("items", lambda: sorted(repr(v) for v in x) if isinstance(x, set) else [repr(v) for v in x])
     return s
@@ -743,7 +745,7 @@ def xop_snapall(node, op):
     for s in sorted(node.slots):
         if lo <= s < hi:
             x = node.slots[s]
-            if isinstance(x, (Expr, BaseForm, dict, set)):
+            if isinstance(x, (Expr, BaseForm, dict, set)) or type(x).__name__ == "Measure":
                 out[str(s)] = snapshot(x, cold)
     return out
 
